@@ -356,6 +356,11 @@ func (x *G) block(tag string, depth int, inForm bool) *Node {
 		}
 		if x.chance("colgroup", 4) {
 			el.Kids = append(el.Kids, &Node{Tag: "colgroup", Attrs: x.pickAttrs(), Kids: []*Node{{Tag: "col", Attrs: [][2]string{{"span", x.pick("colspan", []string{"1", "2"})}}}}})
+			if x.chance("colgroup2", 2) {
+				// a second group: its columns must not end up in the first one
+				x.Feats["two-colgroups"]++
+				el.Kids = append(el.Kids, &Node{Tag: "colgroup", Attrs: x.pickAttrs(), Kids: []*Node{{Tag: "col"}}})
+			}
 		}
 		sections := []string{"tbody"}
 		if x.chance("thead", 3) {
